@@ -11,9 +11,13 @@ SRC = "/tmp/seeded"
 DST = "/verif/seeded"
 
 
+ORDER = ["results.batch1.txt", "results.txt", "results.batch3.txt", "results.batch4.txt"]
+
+
 def parse_results(paths):
+    """History per seed and check, oldest run first."""
     res = {}
-    for p in paths:
+    for stage, p in enumerate(paths):
         if not os.path.exists(p):
             continue
         cur = None
@@ -23,24 +27,34 @@ def parse_results(paths):
                 cur = m.group(1)
                 res.setdefault(cur, {})
                 continue
-            m = re.match(r"(C\d\d): (\w+) in (\d+)s\s+(\[.*?\])", line)
+            m = re.match(r"(C\d\d): (\w+) in (\d+)s\s+(\[.*\]) (\[.*?\])\s*$", line)
             if m and cur:
-                res[cur][m.group(1)] = {"verdict": m.group(2), "wall_s": int(m.group(3)), "sigs": m.group(4)[:400]}
-            if line.startswith("PATCH DOES NOT APPLY") and cur:
-                res[cur]["_apply"] = "patch did not apply"
+                res[cur].setdefault(m.group(1), []).append(
+                    {"verdict": m.group(2), "wall_s": int(m.group(3)), "sigs": m.group(4)[:600], "run": os.path.basename(p)})
     return res
 
 
 def first_para(text, header_words):
-    for para in re.split(r"\n\s*\n", text):
-        low = para.lower()
-        if any(w in low for w in header_words):
-            return " ".join(para.split())[:700]
+    paras = [x for x in re.split(r"\n\s*\n", text) if x.strip()]
+    # a heading that names the trigger: the text below it
+    for i, para in enumerate(paras):
+        if para.lstrip().startswith("#") and any(w in para.lower() for w in header_words):
+            lines = para.strip().split("\n")
+            body = " ".join(" ".join(lines[1:]).split())
+            j = i + 1
+            while len(body) < 200 and j < len(paras) and not paras[j].lstrip().startswith("#"):
+                body += " " + " ".join(paras[j].split())
+                j += 1
+            if body.strip():
+                return body.strip()[:900]
+    for para in paras:
+        if not para.lstrip().startswith("#") and any(w in para.lower() for w in header_words):
+            return " ".join(para.split())[:900]
     return " ".join(text.split())[:500]
 
 
 def main():
-    results = parse_results([os.path.join(SRC, f) for f in sorted(os.listdir(SRC)) if f.startswith("results")])
+    results = parse_results([os.path.join(SRC, f) for f in ORDER])
     rows = []
     os.makedirs(DST, exist_ok=True)
     for prop in sorted(os.listdir(SRC)):
@@ -73,13 +87,14 @@ def main():
                 shutil.copy(os.path.join(sd, "demo.rs"), os.path.join(out, "demo.rs"))
             if notes:
                 open(os.path.join(out, "notes.md"), "w").write(notes)
-            caught = sorted(k for k, v in det.items() if isinstance(v, dict) and v.get("verdict") == "DETECTED")
-            missed = sorted(k for k, v in det.items() if isinstance(v, dict) and v.get("verdict") == "MISSED")
+            caught = sorted(k for k, v in det.items() if v and v[-1]["verdict"] == "DETECTED")
+            missed = sorted(k for k, v in det.items() if v and v[-1]["verdict"] == "MISSED")
+            strengthened = sorted(k for k, v in det.items() if v and v[-1]["verdict"] == "DETECTED" and any(x["verdict"] == "MISSED" for x in v[:-1]))
             meta = {
                 "id": sid,
                 "property_broken": prop,
                 "source": "independent sub-agent given only the property text and a scratch worktree",
-                "needs_to_manifest": first_para(notes, ["manifest", "trigger", "needs", "only when", "only if"]),
+                "needs_to_manifest": first_para(notes, ["to manifest", "manifest", "trigger", "needs"]),
                 "confirmed_in_scratch_worktree": {
                     "demo_passes_on_unchanged_tree": confirm.get("demo_on_clean_tree"),
                     "demo_fails_with_change": confirm.get("demo_with_patch"),
@@ -90,17 +105,18 @@ def main():
                     "confirmed": confirm.get("confirmed"),
                     "how": "tools/confirm_seed.py <scratch worktree> <seed dir> (git apply; cargo build x2; cargo test --test seeded_demo; cargo nextest run)",
                 },
-                "checks_run_against_it": {k: v for k, v in det.items() if isinstance(v, dict)},
+                "checks_run_against_it": det,
                 "how_checks_were_run": "tools/seedtest.py patch.diff <checks> (git -C /repo apply; ./vcheck check Cxx --tier quick; git -C /repo checkout -- .)",
                 "detected_by": caught,
                 "missed_by": missed,
+                "missed_at_first_and_detected_after_strengthening": strengthened,
             }
             json.dump(meta, open(os.path.join(out, "meta.json"), "w"), indent=1)
-            rows.append((sid, confirm.get("confirmed"), caught, missed, meta["needs_to_manifest"][:160]))
-    print("| seeded change | confirmed | detected by | missed by | needs |")
-    print("|---|---|---|---|---|")
+            rows.append((sid, confirm.get("confirmed"), caught, missed, strengthened, meta["needs_to_manifest"][:160]))
+    print("| seeded change | confirmed | detected by | missed by | detected only after strengthening | needs |")
+    print("|---|---|---|---|---|---|")
     for r in rows:
-        print(f"| {r[0]} | {r[1]} | {', '.join(r[2]) or '-'} | {', '.join(r[3]) or '-'} | {r[4]} |")
+        print(f"| {r[0]} | {r[1]} | {', '.join(r[2]) or '-'} | {', '.join(r[3]) or '-'} | {', '.join(r[4]) or '-'} | {r[5]} |")
 
 
 if __name__ == "__main__":
